@@ -52,7 +52,9 @@ Check(R, S) ==     \* R: id -> row, S: id -> returned score record
   IN [\* an explicit calibration error (C11: no accepted target in some fold) is not a SILENT degradation
       Returned |-> \/ T.raised_type = "RuntimeError" /\ T.calib_error
                    \/ T.raised = "" /\ DOMAIN S = Ids /\ Len(T.descs) = T.nfiles /\ NM >= 1,
-      SafetyNet |-> (T.raised = "" /\ DOMAIN S = Ids /\ NM >= 1) =>
+      \* returned scores that are not finite (a fold calibrated with t = d: division by zero, outside C11's domain) have no
+      \* well-defined ranking: such runs are not judged
+      SafetyNet |-> (T.raised = "" /\ DOMAIN S = Ids /\ NM >= 1 /\ \A x \in Ids : ~S[x].nan) =>
                        (T.override \/ Accepted >= FeatTotal \/ IsBestFeature),
       FeatPassReported |-> (T.raised = "" /\ NM >= 1) => Reported,
       info |-> IF T.raised = "" /\ DOMAIN S = Ids /\ NM >= 1
